@@ -120,6 +120,14 @@ fn call_in_child(exe: &std::path::Path, js: &str, loc: &str, tz: &str) -> Result
         if let Some(so) = clockskew_so() {
             cmd.env("LD_PRELOAD", so).env("T2N_CLOCK_STEP_MS", "5000");
         }
+        // ... and every environment variable the tree under test reads by name is set
+        for name in crate::vocab::ENV_VARS_READ {
+            cmd.env(name, "1");
+        }
+    } else {
+        for name in crate::vocab::ENV_VARS_READ {
+            cmd.env_remove(name);
+        }
     }
     match cmd
         .arg("reference-call")
@@ -546,6 +554,18 @@ pub fn run_c14(cfg: &BatchCfg, corpus_size: usize, pristine_sample: usize) -> i3
         }
         std::thread::sleep(std::time::Duration::from_millis(50));
         threads_after = threads_now();
+    }
+    // the process-wide panic hook must still be the one installed before the calls
+    *LAST_PANIC_PROBE.lock().unwrap() = String::new();
+    let _ = std::panic::catch_unwind(|| panic!("t2n-hook-probe"));
+    let hook_ok = LAST_PANIC_PROBE.lock().unwrap().contains("t2n-hook-probe");
+    if !hook_ok {
+        let detail = "library calls replaced the process-wide panic hook (a panic raised after the batch no longer reaches the hook that was installed before it)".to_string();
+        let p = replay_dir().join(format!("C14-{}-panic-hook.txt", cfg.seed));
+        let _ = std::fs::write(&p, &detail);
+        lines.push(format!("violation detail: oracle=E2-process-side-effects {detail}"));
+        lines.push(format!("VIOLATION property=C14 replay={}", p.display()));
+        return fail(&lines, 1);
     }
     if env_after != env_before || (threads_before > 0 && threads_after > threads_before) {
         let changed: Vec<String> = env_after
